@@ -1046,3 +1046,121 @@ def c15(scn):
                     if edges[t][0] != x or edges[t][1] != y:
                         fails.append(("orient_from_root", "tree edge %d is (%d -> %d) but the root side is %d" % (t, edges[t][0], edges[t][1], x)))
     return fails[:20]
+
+
+# ----------------------------------------------------------------------------- C18
+
+def c18(scn):
+    """mesh connectivity / boundary / areas recomputed from the triangles in exact rationals"""
+    fails = []
+    t = scn.calls[0].toks if scn.calls else []
+    if len(t) < 4 or t[1] != "mesh":
+        return fails
+    npts, nt = int(t[2]), int(t[3])
+    pts = [(unhx(t[4 + 2 * i]), unhx(t[5 + 2 * i])) for i in range(npts)]
+    o = 4 + 2 * npts
+    tris = [(int(t[o + 3 * k]), int(t[o + 3 * k + 1]), int(t[o + 3 * k + 2])) for k in range(nt)]
+    stspec = t[o + 3 * nt:]
+    first = scn.calls[0].O.get("grid")
+    if any(v >= npts for tr in tris for v in tr):
+        return fails
+    # expected construction result
+    expect_err = None
+    if stspec and stspec[0] == "map":
+        ents = [(int(stspec[2 + 2 * k]), stspec[3 + 2 * k]) for k in range(int(stspec[1]))]
+        for i, s_ in sorted(ents):
+            if s_ == "l":
+                expect_err = "invalid_argument"
+                break
+            if i >= npts:
+                expect_err = "out_of_range"
+                break
+    elif stspec and stspec[0] == "arr":
+        if int(stspec[1]) != npts:
+            expect_err = "invalid_argument"
+    if expect_err:
+        if first != ["err", expect_err]:
+            fails.append(("construction_rejected", "expected %s, got %s" % (expect_err, first)))
+        return fails
+    if first != ["ok"]:
+        fails.append(("construction_accepted", "got %s" % first))
+        return fails
+    from collections import Counter
+    ecount = Counter()
+    for (a, b, c) in tris:
+        for e in ((b, c), (c, a), (a, b)):
+            ecount[frozenset(e)] += 1
+    nb = {i: set() for i in range(npts)}
+    for e in ecount:
+        if len(e) == 2:
+            a, b = tuple(e)
+            nb[a].add(b)
+            nb[b].add(a)
+    boundary = set(v for e, k in ecount.items() if k == 1 for v in e)
+    F = Fraction
+    # exact circumcentric shares
+    share = [F(0)] * npts
+    total = F(0)
+    for tr in tris:
+        P = [(F(pts[v][0]), F(pts[v][1])) for v in tr]
+        cross = (P[1][0] - P[0][0]) * (P[2][1] - P[0][1]) - (P[1][1] - P[0][1]) * (P[2][0] - P[0][0])
+        A = abs(cross) / 2
+        total += A
+        if A == 0:
+            continue
+        for k in range(3):
+            # edge opposite to vertex k: between the two others; cot(angle at k) = dot/(2A)
+            a_, b_ = (k + 1) % 3, (k + 2) % 3
+            e2 = (P[a_][0] - P[b_][0]) ** 2 + (P[a_][1] - P[b_][1]) ** 2
+            dot = (P[a_][0] - P[k][0]) * (P[b_][0] - P[k][0]) + (P[a_][1] - P[k][1]) * (P[b_][1] - P[k][1])
+            cot = dot / (2 * A)
+            w = e2 * cot / 8
+            share[tr[a_]] += w
+            share[tr[b_]] += w
+    status = None
+    areas = None
+    for c in scn.calls:
+        if c.cmd == "grid_common":
+            status = [int(x) for x in c.O.get("status", [])]
+            areas = [unhx(x) for x in c.O.get("area", [])]
+            if c.O.get("area_views_agree") != ["1"]:
+                fails.append(("area_views_agree", ""))
+        if c.cmd == "q" and len(c.toks) == 3 and c.toks[1] in ("m", "c"):
+            i = int(c.toks[2])
+            vals = (c.O.get("q") or [])[2:]
+            if c.toks[1] == "c":
+                if [int(x) for x in vals] != [len(nb[i])]:
+                    fails.append(("mesh_nbrs_iff_edge", "node %d: count %s, %d distinct triangle edges" % (i, vals, len(nb[i]))))
+                continue
+            tr3 = [(int(vals[k]), unhx(vals[k + 1]), int(vals[k + 2])) for k in range(0, len(vals), 3)]
+            got = [a for a, _, _ in tr3]
+            if len(set(got)) != len(got):
+                fails.append(("mesh_nbrs_no_duplicates", "node %d: %s" % (i, got)))
+            if set(got) != nb[i]:
+                fails.append(("mesh_nbrs_iff_edge", "node %d: neighbours %s, triangle edges give %s" % (i, sorted(got), sorted(nb[i]))))
+            for a, d, s_ in tr3:
+                if 0 <= a < npts:
+                    d2 = (F(pts[i][0]) - F(pts[a][0])) ** 2 + (F(pts[i][1]) - F(pts[a][1])) ** 2
+                    if abs(F(d) * F(d) - d2) > F(EPS) * 8 * d2 + F(1e-300):
+                        fails.append(("mesh_distance", "node %d -> %d: %r" % (i, a, d)))
+                    if status is not None and s_ != status[a]:
+                        fails.append(("mesh_neighbor_status", "node %d neighbour %d" % (i, a)))
+    if status is not None and (not stspec or stspec[0] == "none"):
+        want = [1 if i in boundary else 0 for i in range(npts)]
+        if status != want:
+            bad = [i for i in range(npts) if status[i] != want[i]]
+            fails.append(("mesh_boundary_iff_single", "nodes %s: status differs from 'on an edge of exactly one triangle'" % bad[:6]))
+    if areas is not None and len(areas) == npts:
+        scale = sum(abs(s_) for s_ in share) + total
+        tol = F(1e-9) * scale + F(1e-300)
+        tot = sum(F(a) for i, a in enumerate(areas) if nb[i] or share[i] != 0)
+        if abs(tot - total) > tol:
+            fails.append(("mesh_areas_sum", "node areas sum to %r, the triangles cover %r" % (float(tot), float(total))))
+        for i in range(npts):
+            if not nb[i] and share[i] == 0:
+                if areas[i] != DBL_MIN:
+                    fails.append(("mesh_isolated_area", "isolated node %d has area %r" % (i, areas[i])))
+            elif abs(F(areas[i]) - share[i]) > tol:
+                fails.append(("mesh_node_share", "node %d: area %r, circumcentric share %r" % (i, areas[i], float(share[i]))))
+                break
+    return fails[:20]
